@@ -87,7 +87,7 @@ static inline Bits bits_of(long double v) {
   Bits b;
   unsigned char raw[16];
   memset(raw, 0, 16);
-  memcpy(raw, &v, sizeof(long double));
+  memcpy(raw, &v, 10);
   memcpy(&b.lo, raw, 8);      // 10 significant bytes of the x87 format
   memcpy(&b.hi, raw + 8, 2);
   return b;
